@@ -479,7 +479,7 @@ def rewrite_derive(attr_text):
 
 SECTION_KW = ("ret", "requires", "ensures", "decreases", "recommends", "entry", "loop", "before", "after",
               "subst", "sigsubst", "attr", "name", "opens", "noprove", "unwind", "mono", "selftype", "ord", "header", "nostructural", "deadtail",
-              "closure", "capture", "cret", "dropclosure")
+              "closure", "capture", "cret", "dropclosure", "callargs")
 
 
 class FnDirective:
@@ -710,6 +710,25 @@ def splice_body(body, d, em, target):
         cend = match_brace(mb, cob)
         body = body[:cpos] + "()" + body[cend + 1:]
         em.rules.add("E21")
+    for (_, spec_) in d.get("callargs"):
+        # E5 (ghost arguments): `callargs "callee" "extra"` appends the extra (ghost) arguments to every call of `callee`
+        # in the body, whatever its formatting
+        mm = re.match(r'\s*"([^"]+)"\s+"([^"]+)"\s*$', spec_)
+        if not mm:
+            raise ExtractError("bad callargs: " + spec_)
+        callee, extra = mm.group(1), mm.group(2)
+        mb = mask_source(body)
+        hits = [m for m in re.finditer(r"(?<![A-Za-z0-9_])%s\s*\(" % re.escape(callee), mb)]
+        if not hits:
+            raise ExtractError("callargs: no call of %s in %s" % (callee, target))
+        for m in reversed(hits):
+            po = m.end() - 1
+            pc = match_brace(mb, po)
+            inner = body[po + 1:pc].rstrip()
+            sep = "" if (inner.endswith(",") or not inner.strip()) else ","
+            body = body[:po + 1] + inner + sep + " " + extra + body[pc:]
+            mb = mask_source(body)
+        em.rules.add("E5")
     for (_, anchor) in d.get("deadtail"):
         # E17: drop the tail of the body starting at the anchored line; it is replaced by `unreached()`, which Verus
         # must prove unreachable under the function's requires (used for the non-ISO branches that call icu_calendar)
